@@ -49,9 +49,32 @@ def fmt(calls):
     return "ok [" + ",".join("[" + ",".join(str(int(i)) for i in c) + "]" for c in calls) + "]"
 
 
+EPS = 2.0 ** -40     # makes every value need more than float32's 24 bits (a result squeezed through f4 is visible)
+
+
 def point_value(i):
-    # exactly rounded arithmetic on small integers: batch == pointwise bit for bit
-    return float(i) * 3.0 - 7.0
+    # IEEE arithmetic on small integers, identical for Python floats and NumPy float64 arrays:
+    # batch == pointwise bit for bit
+    return float(i) * 3.0 - 7.0 + EPS
+
+
+class float_dtype:
+    """run a block under config.livepoints.default_float_dtype = dt (seeded change C10-c: results collected with
+    the PARAMETER dtype instead of float64)"""
+
+    def __init__(self, dt):
+        self.dt = dt
+
+    def __enter__(self):
+        from nessai import config
+        self.old = config.livepoints.default_float_dtype
+        config.livepoints.default_float_dtype = self.dt
+        config.livepoints.reset_properties()
+
+    def __exit__(self, *a):
+        from nessai import config
+        config.livepoints.default_float_dtype = self.old
+        config.livepoints.reset_properties()
 
 
 def run_raw(n, vec, chunk, pool_n, pool_known, kind):
@@ -63,15 +86,15 @@ def run_raw(n, vec, chunk, pool_n, pool_known, kind):
     def f_vec(b):
         b = np.atleast_1d(b)
         calls.append([int(v) for v in b])
-        return b * 3.0 - 7.0
+        return b * 3.0 - 7.0 + EPS
 
     def f_scalar(v):
         calls.append([int(v)])
-        return float(v) * 3.0 - 7.0
+        return float(v) * 3.0 - 7.0 + EPS
 
     def f_arr1(v):
         calls.append([int(v)])
-        return np.array([float(v) * 3.0 - 7.0])
+        return np.array([float(v) * 3.0 - 7.0 + EPS])
 
     func = f_vec if vec else (f_scalar if kind == "scalar" else f_arr1)
     pool = FakePool(pool_n, pool_known) if pool_n is not None else None
@@ -126,27 +149,27 @@ def make_model(vec, dims=2):
             # an exactly rounded stand-in "prior" (2*id + 1) so that a mixed-up wrapper is visible
             if x.ndim == 0 or x.shape == ():
                 self.prior_calls.append([float(x["id"])])
-                return float(x["id"]) * 2.0 + 1.0
+                return float(x["id"]) * 2.0 + 1.0 + EPS
             self.prior_calls.append([float(v) for v in np.atleast_1d(x["id"])])
-            return np.atleast_1d(x["id"]) * 2.0 + 1.0
+            return np.atleast_1d(x["id"]).astype(float) * 2.0 + 1.0 + EPS
 
         def log_prior_unit_hypercube(self, x):
             # distinct from log_prior: 5*id + 2 evaluated from the unit-cube coordinate
             if x.ndim == 0 or x.shape == ():
                 self.uprior_calls.append([float(x["id"]) * 1024.0])
-                return float(x["id"]) * 1024.0 * 5.0 + 2.0
+                return float(x["id"]) * 1024.0 * 5.0 + 2.0 + EPS
             self.uprior_calls.append([float(v) * 1024.0 for v in np.atleast_1d(x["id"])])
-            return np.atleast_1d(x["id"]) * 1024.0 * 5.0 + 2.0
+            return np.atleast_1d(x["id"]).astype(float) * 1024.0 * 5.0 + 2.0 + EPS
 
         def log_likelihood(self, x):
             if not self._vec:
                 if np.ndim(x["id"]) != 0:
                     raise TypeError("not vectorised")
                 self.calls.append([float(x["id"])])
-                return float(x["id"]) * 3.0 - 7.0
+                return float(x["id"]) * 3.0 - 7.0 + EPS
             ids = np.atleast_1d(x["id"])
             self.calls.append([float(v) for v in ids])
-            return ids * 3.0 - 7.0
+            return ids.astype(float) * 3.0 - 7.0 + EPS
 
     return M()
 
@@ -190,7 +213,8 @@ def run_model_layer(n, vec, chunk, pool_n, unit, which, par_prior=True):
 
 
 def correspond(ctx):
-    ctx.rule = ("full grid n in 0..N x chunk in {None,0,1..N+1,-1} x pool in {None,1..4,unknown-size} x "
+    ctx.rule = ("(all of it under config.livepoints.default_float_dtype f8 and f4; function values carry a 2^-40 term so that "
+                "a result squeezed through float32 differs) full grid n in 0..N x chunk in {None,0,1..N+1,-1} x pool in {None,1..4,unknown-size} x "
                 "{vectorised array fn, scalar fn, shape-(1,) fn} on the real batch_evaluate_function with a fake "
                 "order-preserving pool; then Model.batch_evaluate_log_likelihood / _log_prior (physical and unit "
                 "hypercube) on the same grid subset; non-trivial = distinct (n,vec,chunk,pool,kind) with n>=1")
@@ -200,23 +224,25 @@ def correspond(ctx):
               "numpy.array_split / concatenate (validated by the correspondence itself)")
     N = ctx.scale(12, 40)
     lines, impls, cases = [], [], []
-    for n in range(N + 1):
-        chunks = [None, 0, -1] + list(range(1, N + 2))
-        if not ctx.quick:
-            chunks = [None, 0, -1] + sorted(set(list(range(1, 8)) + [n - 1, n, n + 1, N + 1]) - {0, -1})
-        for chunk in chunks:
-            for pool_n, known in [(None, True), (1, True), (2, True), (3, True), (4, True), (2, False)]:
-                for vec, kind in [(True, "vec"), (False, "scalar"), (False, "arr1")]:
-                    case = dict(layer="raw", n=n, vec=vec, chunk=chunk, pool=pool_n, known=known, kind=kind)
-                    canon, out, calls = run_raw(n, vec, chunk, pool_n, known, kind)
-                    key = "batch_evaluate_function"
-                    oracle(ctx, case, canon, out, calls, n, chunk, key)
-                    np_tok = "none" if (pool_n is None or not known) else str(pool_n)
-                    lines.append(f"bat calls {int(vec)} {'none' if chunk is None else chunk} "
-                                 f"{int(pool_n is not None)} {np_tok} {n}")
-                    impls.append(canon)
-                    cases.append(case)
-                    ctx.case((n, vec, chunk, pool_n, known, kind), n >= 1, case, kind=("err" if out is None else kind))
+    for dt in ("f8", "f4"):
+      with float_dtype(dt):
+        for n in range(N + 1):
+            chunks = [None, 0, -1] + list(range(1, N + 2))
+            if not ctx.quick:
+                chunks = [None, 0, -1] + sorted(set(list(range(1, 8)) + [n - 1, n, n + 1, N + 1]) - {0, -1})
+            for chunk in chunks:
+                for pool_n, known in [(None, True), (1, True), (2, True), (3, True), (4, True), (2, False)]:
+                    for vec, kind in [(True, "vec"), (False, "scalar"), (False, "arr1")]:
+                        case = dict(layer="raw", n=n, vec=vec, chunk=chunk, pool=pool_n, known=known, kind=kind, float_dtype=dt)
+                        canon, out, calls = run_raw(n, vec, chunk, pool_n, known, kind)
+                        key = "batch_evaluate_function"
+                        oracle(ctx, case, canon, out, calls, n, chunk, key)
+                        np_tok = "none" if (pool_n is None or not known) else str(pool_n)
+                        lines.append(f"bat calls {int(vec)} {'none' if chunk is None else chunk} "
+                                     f"{int(pool_n is not None)} {np_tok} {n}")
+                        impls.append(canon)
+                        cases.append(case)
+                        ctx.case((n, vec, chunk, pool_n, known, kind, dt), n >= 1, case, kind=("err" if out is None else kind) + ":" + dt)
     # direct primitive correspondence
     from nessai.utils.structures import array_split_chunksize
     for n in range(N + 1):
@@ -240,60 +266,62 @@ def correspond(ctx):
             ctx.case(("splitn", n, k), n >= 1 and k >= 1, kind="splitn")
     # Model layer
     M = ctx.scale(7, 16)
-    for n in range(M + 1):
-        for chunk in [None, 1, 2, 3, n + 1]:
-            for pool_n in [None, 1, 3]:
-                for vec in [True, False]:
-                    for unit in [False, True]:
-                        for which, par in [("ll", True), ("prior", True), ("prior", False), ("uprior", True), ("uprior", False)]:
-                            if which == "uprior" and unit:
-                                continue
-                            case = dict(layer="Model." + which, n=n, vec=vec, chunk=chunk, pool=pool_n, unit=unit, parallelise_prior=par)
-                            canon, out, calls, delta = run_model_layer(n, vec, chunk, pool_n, unit, which, par)
-                            key = "Model.batch_evaluate_log_" + {"ll": "likelihood", "prior": "prior", "uprior": "prior_unit_hypercube"}[which]
-                            if out is None:
-                                ctx.oracle_fail(key, f"batch interface raised {canon} on a supported configuration", case)
-                                continue
-                            flat = [v for c in calls for v in c]
-                            if which == "ll":
-                                want = np.array([point_value(i) for i in range(n)])
-                                if not unit and not np.array_equal(np.asarray(out, dtype=float), want):
-                                    ctx.oracle_fail(key, "batch log-likelihood differs from pointwise", case)
-                                if unit and not np.array_equal(np.asarray(out, dtype=float), want):
-                                    ctx.oracle_fail(key, "unit-hypercube batch log-likelihood is not the value at the mapped physical point", case)
-                                if delta != n:
-                                    ctx.oracle_fail(key + ".counter", f"likelihood_evaluations grew by {delta} for a batch of {n}", case)
-                                if chunk and vec and any(len(c) > chunk for c in calls):
-                                    ctx.oracle_fail(key, "likelihood called with more than likelihood_chunksize points", case)
-                            else:
-                                if delta != 0:
-                                    ctx.oracle_fail(key + ".counter", "prior evaluation changed the likelihood counter", case)
-                                want = np.array([(5.0 * i + 2.0) if which == "uprior" else (2.0 * i + 1.0) for i in range(n)])
-                                if not np.array_equal(np.asarray(out, dtype=float).reshape(-1), want):
-                                    ctx.oracle_fail(key, f"batch prior differs from pointwise evaluation of the same function: {np.asarray(out).tolist()} vs {want.tolist()}", case)
-                                if pool_n is not None and not par and run_model_layer.last_pool_maps:
-                                    ctx.oracle_fail(key, "prior evaluated through the pool although parallelise_prior is False", case)
-                            if [round(v) for v in flat] != list(range(n)) or any(abs(v - round(v)) > 1e-9 for v in flat):
-                                ctx.oracle_fail(key, f"points not evaluated once in order at the physical point: {calls}", case)
-                            # model line: prior ignores chunksize, and the pool unless parallelise_prior
-                            ch = chunk if which == "ll" else None
-                            use_pool = pool_n is not None and (which == "ll" or par)
-                            lines.append(f"bat calls {int(vec)} {'none' if ch is None else ch} "
-                                         f"{int(use_pool)} {pool_n if use_pool else 'none'} {n}")
-                            impls.append(canon)
-                            cases.append(case)
-                            ctx.case(("model", n, vec, chunk, pool_n, unit, which, par), n >= 1, case if n == 3 else None, kind="Model." + which)
+    for dt in ("f8", "f4"):
+      with float_dtype(dt):
+        for n in range(M + 1):
+            for chunk in [None, 1, 2, 3, n + 1]:
+                for pool_n in [None, 1, 3]:
+                    for vec in [True, False]:
+                        for unit in [False, True]:
+                            for which, par in [("ll", True), ("prior", True), ("prior", False), ("uprior", True), ("uprior", False)]:
+                                if which == "uprior" and unit:
+                                    continue
+                                case = dict(layer="Model." + which, n=n, vec=vec, chunk=chunk, pool=pool_n, unit=unit, parallelise_prior=par, float_dtype=dt)
+                                canon, out, calls, delta = run_model_layer(n, vec, chunk, pool_n, unit, which, par)
+                                key = "Model.batch_evaluate_log_" + {"ll": "likelihood", "prior": "prior", "uprior": "prior_unit_hypercube"}[which]
+                                if out is None:
+                                    ctx.oracle_fail(key, f"batch interface raised {canon} on a supported configuration", case)
+                                    continue
+                                flat = [v for c in calls for v in c]
+                                if which == "ll":
+                                    want = np.array([point_value(i) for i in range(n)])
+                                    if not unit and not np.array_equal(np.asarray(out, dtype=float), want):
+                                        ctx.oracle_fail(key, "batch log-likelihood differs from pointwise", case)
+                                    if unit and not np.array_equal(np.asarray(out, dtype=float), want):
+                                        ctx.oracle_fail(key, "unit-hypercube batch log-likelihood is not the value at the mapped physical point", case)
+                                    if delta != n:
+                                        ctx.oracle_fail(key + ".counter", f"likelihood_evaluations grew by {delta} for a batch of {n}", case)
+                                    if chunk and vec and any(len(c) > chunk for c in calls):
+                                        ctx.oracle_fail(key, "likelihood called with more than likelihood_chunksize points", case)
+                                else:
+                                    if delta != 0:
+                                        ctx.oracle_fail(key + ".counter", "prior evaluation changed the likelihood counter", case)
+                                    want = np.array([(5.0 * i + 2.0 + EPS) if which == "uprior" else (2.0 * i + 1.0 + EPS) for i in range(n)])
+                                    if not np.array_equal(np.asarray(out, dtype=float).reshape(-1), want):
+                                        ctx.oracle_fail(key, f"batch prior differs from pointwise evaluation of the same function: {np.asarray(out).tolist()} vs {want.tolist()}", case)
+                                    if pool_n is not None and not par and run_model_layer.last_pool_maps:
+                                        ctx.oracle_fail(key, "prior evaluated through the pool although parallelise_prior is False", case)
+                                if [round(v) for v in flat] != list(range(n)) or any(abs(v - round(v)) > 1e-9 for v in flat):
+                                    ctx.oracle_fail(key, f"points not evaluated once in order at the physical point: {calls}", case)
+                                # model line: prior ignores chunksize, and the pool unless parallelise_prior
+                                ch = chunk if which == "ll" else None
+                                use_pool = pool_n is not None and (which == "ll" or par)
+                                lines.append(f"bat calls {int(vec)} {'none' if ch is None else ch} "
+                                             f"{int(use_pool)} {pool_n if use_pool else 'none'} {n}")
+                                impls.append(canon)
+                                cases.append(case)
+                                ctx.case(("model", n, vec, chunk, pool_n, unit, which, par, dt), n >= 1, case if n == 3 else None, kind="Model." + which + ":" + dt)
     ctx.diff_model(lines, impls, cases)
     if not ctx.quick:
         real_pools(ctx)
 
 
 def _pw(v):
-    return float(v) * 3.0 - 7.0
+    return float(v) * 3.0 - 7.0 + EPS
 
 
 def _pv(b):
-    return np.atleast_1d(b) * 3.0 - 7.0
+    return np.atleast_1d(b) * 3.0 - 7.0 + EPS
 
 
 def real_pools(ctx):
@@ -308,7 +336,7 @@ def real_pools(ctx):
                         x = np.arange(n, dtype=float)
                         out = batch_evaluate_function(_pv if vec else _pw, x, vec, chunksize=chunk, pool=pool, n_pool=p)
                         case = dict(layer="forkpool", n=n, vec=vec, chunk=chunk, pool=p)
-                        if not np.array_equal(np.asarray(out, dtype=float), x * 3.0 - 7.0):
+                        if not np.array_equal(np.asarray(out, dtype=float), x * 3.0 - 7.0 + EPS):
                             ctx.oracle_fail("batch_evaluate_function", "fork pool result differs from pointwise", case)
                         ctx.case(("fork", n, vec, chunk, p), n >= 1, kind="forkpool")
 
@@ -321,8 +349,9 @@ def search(ctx):
 def replay(ctx, obj):
     c = obj["case"]
     if c.get("layer") == "raw":
-        canon, out, calls = run_raw(c["n"], c["vec"], c["chunk"], c["pool"], c["known"], c["kind"])
-        oracle(ctx, c, canon, out, calls, c["n"], c["chunk"], obj["key"])
+        with float_dtype(c.get("float_dtype", "f8")):
+            canon, out, calls = run_raw(c["n"], c["vec"], c["chunk"], c["pool"], c["known"], c["kind"])
+            oracle(ctx, c, canon, out, calls, c["n"], c["chunk"], obj["key"])
         ctx.case(repr(c), True, c)
     else:
         correspond(ctx)
